@@ -42,7 +42,12 @@ func (dp decProp) body(o decOpts, st *propStats) func(t *rapid.T) {
 				c.PreCap = -1
 			}
 		}
-		if o.vehicle == "dbuf" && o.hostile > 0 && rapid.IntRange(0, 9).Draw(t, "direct") == 0 {
+		if o.vehicle == "dbuf" && !c.Direct && rapid.IntRange(0, 9).Draw(t, "presetDict") == 0 {
+			cc := c.Cfg.completed()
+			n := rapid.IntRange(1, maxInt(minInt(minInt(cc.WindowSize, cc.BufferSize-1), 40), 1)).Draw(t, "dictLen")
+			c.Dict = genLits(t, "dict", n)
+		}
+		if o.vehicle == "dbuf" && len(c.Dict) == 0 && o.hostile > 0 && rapid.IntRange(0, 9).Draw(t, "direct") == 0 {
 			// no Init: the configuration fields are set by hand
 			c.Direct = true
 			c.Cfg.WindowSize = rapid.SampledFrom([]int{0, 0, 1, 2, 8}).Draw(t, "directWindow")
